@@ -196,6 +196,7 @@ func c18OnceWith(ast func() types.MalType, plan c03Plan, cmd func(i int) debugge
 		return rt.probe(ctx, a[0].(int), true)
 	}})
 	call.CallOverrideFN(e, "probe-e!", func(ctx context.Context, i int) error { _, err := rt.probe(ctx, i, false); return err })
+	c03InstallExtras(e)
 	if _, err := lisp.EVAL(context.Background(), mustRead(c03Setup), e); err != nil {
 		panic("c18 setup: " + err.Error())
 	}
